@@ -131,13 +131,28 @@ def parent_map(root: ast.AST) -> dict[ast.AST, ast.AST]:
 _PARSE_CACHE: dict[Path, tuple[str, ast.Module]] = {}
 
 
+def algebraic_view(tree: ast.Module) -> ast.Module:
+    """`math.fsum(xs)` (the exactly rounded float sum) is `sum(xs)` for every algebraic rule: the call's function is
+    replaced by the name `sum` in place (positions kept, so source segments still show the original text) and the call
+    is marked `_exact_sum = True` for the rules that care about the float result itself (C17.EXACT)."""
+    for node in ast.walk(tree):
+        if isinstance(node, ast.Call) and len(node.args) == 1 and not node.keywords:
+            f = node.func
+            if (isinstance(f, ast.Attribute) and f.attr == "fsum" and isinstance(f.value, ast.Name) and f.value.id == "math") \
+                    or (isinstance(f, ast.Name) and f.id == "fsum"):
+                node.func = ast.copy_location(ast.Name(id="sum", ctx=ast.Load()), f)
+                node.func.end_lineno, node.func.end_col_offset = f.end_lineno, f.end_col_offset
+                node._exact_sum = True  # type: ignore[attr-defined]
+    return tree
+
+
 def _parse_cached(path: Path) -> tuple[str, ast.Module]:
     """Trees are never mutated by the analyses, so one parse per file per process is shared."""
     hit = _PARSE_CACHE.get(path)
     if hit is None:
         source = path.read_text()
         try:
-            tree = ast.parse(source, filename=str(path))
+            tree = algebraic_view(ast.parse(source, filename=str(path)))
         except SyntaxError as exc:
             raise AnalysisError(f"cannot parse {path}: {exc}") from exc
         hit = (source, tree)
@@ -166,7 +181,7 @@ class Program:
                 source, tree = _parse_cached(path)
             else:
                 try:
-                    tree = ast.parse(source, filename=str(path))
+                    tree = algebraic_view(ast.parse(source, filename=str(path)))
                 except SyntaxError as exc:
                     raise AnalysisError(f"cannot parse override of {path}: {exc}") from exc
             self.modules[name] = Module(name, path, source, tree)
